@@ -36,7 +36,11 @@ def run_case(ctx, rng, sb, items, nobash=False, abort_item=None):
     real_items = []
     for it in items:
         real_items.append({"before": it["before"], "after": it["after"], "tree": it["tree"] if it["kind"] == "ok" else None, "late": it.get("late", False)})
-    case = walkrun.WalkCase(sb, real_items)
+    # half of the runs start from a storage whose only group is due for rotation (limit: one group), so that the deletion of old
+    # groups happens in the same run as the hook failures
+    rotation = rng.random() < 0.5
+    ctx.count("storage.rotation-due" if rotation else "storage.fresh")
+    case = walkrun.WalkCase(sb, real_items, fail_seed=rng.randrange(4), rotation=rotation)
     for i, it in enumerate(items):
         if it["kind"] == "overlap" and real_items[0]["tree"] is not None:
             # an alias of item 0: canonicalises to the same directory, hence "intersects with previously backed up path"
@@ -80,7 +84,7 @@ def run_case(ctx, rng, sb, items, nobash=False, abort_item=None):
     got = case.skeleton(ev)
     hooks_logged = open(case.log).read().split() if os.path.exists(case.log) else []
     desc = {"items": [{"before": m["before"], "after": m["after"], "kind": it["kind"]} for m, it in zip(model_items, items)],
-            "unstartable_hooks": nobash, "aborting_item": abort_item[0] if abort_item else None}
+            "unstartable_hooks": nobash, "rotation_due": rotation, "aborting_item": abort_item[0] if abort_item else None}
     ctx.evaluations += 1
     ctx.nontrivial.add(repr((desc, exp)))
     ctx.sample({"case": desc, "observed": got, "exit": rc})
@@ -122,7 +126,7 @@ def run_check(ctx):
     thorough = ctx.tier == "thorough"
     rng = ctx.rng
     n = 400 if thorough else 36
-    ctx.rule = ("%d generated item lists of 1..4 items: each hook absent / succeeding / failing (exit 3); items present, missing, or overlapping a "
+    ctx.rule = ("%d generated item lists of 1..4 items: each hook absent / succeeding / failing (exit 3 or death from SIGKILL / SIGTERM / SIGSEGV); half of the runs start from a storage whose old group is due for rotation; items present, missing, or overlapping a "
                 "previous item; a sixth of the cases run with no bash on PATH (hooks cannot be started); a fifth have an item whose backup aborts with "
                 "EIO injected into the read of one of its files. Non-trivial: every case; distinct by (configuration, expected order)." % n)
     for k in range(n):
